@@ -62,6 +62,10 @@ func (g *fileGen) randTime(local bool) time.Time {
 		secs = []int64{1, 2, 0x0FFFFFFF, 0x10000000, 0xFFFFFFFE}[g.rng.Intn(5)]
 	}
 	t := fitEpoch.Add(time.Duration(secs) * time.Second)
+	if !local && g.rng.Intn(3) == 0 {
+		// the same instant held in another location: a UTC field carries the instant, whatever the zone of the value
+		t = t.In(time.FixedZone("", (g.rng.Intn(27)-12)*3600+g.rng.Intn(2)*1800))
+	}
 	if local {
 		off := (g.rng.Intn(27) - 12) * 3600
 		if g.rng.Intn(4) == 0 {
